@@ -35,7 +35,12 @@ NestQ(kind, n) ==
                            \o Rep(<<46, 97>>, n) \o <<41, 41, 62, 48, 93>>                                              \* $[?length(value(@.a.a.a))>0]
     [] kind = "and"     -> <<36, 91, 63, 64, 46, 97>> \o Rep(<<38, 38, 64, 46, 97>>, n) \o <<93>>                         \* $[?@.a&&@.a&&...]
     [] kind = "union"   -> <<36, 91, 48>> \o Rep(<<44, 48>>, n) \o <<93>>                                               \* $[0,0,0,...]
-NestKinds == <<"paren", "notparen", "filter", "index", "name", "desc", "fn", "and", "union">>
+    \* a function TEST whose argument contains a filter whose test is again such a function: $[?match(value(@[?match(value(@.b), 'x')].b), 'x')]
+    [] kind = "fnfilter" -> <<36, 91, 63, 109, 97, 116, 99, 104, 40, 118, 97, 108, 117, 101, 40>> \o Rep(<<64, 91, 63, 109, 97, 116, 99, 104, 40, 118, 97, 108, 117, 101, 40>>, n)
+                            \o <<64, 46, 98>> \o Rep(<<41, 44, 32, 39, 120, 39, 41, 93, 46, 98>>, n) \o <<41, 44, 32, 39, 120, 39, 41, 93>>
+    \* the same with comparisons: $[?count(@[?count(@.b) > 0]) > 0]
+    [] kind = "cmpfilter" -> <<36, 91, 63, 99, 111, 117, 110, 116, 40>> \o Rep(<<64, 91, 63, 99, 111, 117, 110, 116, 40>>, n) \o <<64, 46, 98>> \o Rep(<<41, 32, 62, 32, 48, 93>>, n) \o <<41, 32, 62, 32, 48, 93>>
+NestKinds == <<"paren", "notparen", "filter", "index", "name", "desc", "fn", "and", "union", "fnfilter", "cmpfilter">>
 Depths == IF Thorough THEN <<8, 64, 512, 4096>> ELSE <<8, 64, 512>>
 
 \* extreme integers and literals (as strings: TLC integers are 32-bit)
@@ -68,6 +73,23 @@ ExtremeQ == <<
   \* integers beyond every machine width, as indexes and slice parts (also what `reference` is handed as a path)
   Br(U64Max), Br(U64MaxP1), Br(Neg(U64MaxP1)), Br(Rep(<<57>>, 40)), Br(Neg(Rep(<<57>>, 40))), Br(<<58>> \o U64MaxP1), Br(U64MaxP1 \o <<58>>), Br(<<58, 58>> \o U64MaxP1),
   <<36, 91, 39, 97, 39, 93, 91>> \o U64MaxP1 \o <<93>>, <<36, 91, 48, 93, 91>> \o I64MaxP1 \o <<93>>, Br(<<45, 48>>), Br(<<48, 49>>), Br(<<49, 46, 48>>), Br(<<49, 101, 50>>),
+  \* near-valid queries LONGER than a typical error-message excerpt, with multi-byte characters at every offset around byte 64
+  <<36, 46, 32, 233, 233, 233, 233, 233, 233, 233, 233, 233, 233, 233, 233, 233, 233, 233, 233, 233, 233, 233, 233, 233, 233, 233, 233, 233, 233, 233, 233, 233, 233, 233, 233, 233, 233, 233, 233, 233, 233, 233, 233>>,
+  <<36, 46, 32, 97, 233, 233, 233, 233, 233, 233, 233, 233, 233, 233, 233, 233, 233, 233, 233, 233, 233, 233, 233, 233, 233, 233, 233, 233, 233, 233, 233, 233, 233, 233, 233, 233, 233, 233, 233, 233, 233, 233, 233, 233>>,
+  <<36, 46, 46, 32, 233, 233, 233, 233, 233, 233, 233, 233, 233, 233, 233, 233, 233, 233, 233, 233, 233, 233, 233, 233, 233, 233, 233, 233, 233, 233, 233, 233, 233, 233, 233, 233, 233, 233, 233, 233, 233, 233, 233, 233>>,
+  <<36, 46, 46, 32, 97, 233, 233, 233, 233, 233, 233, 233, 233, 233, 233, 233, 233, 233, 233, 233, 233, 233, 233, 233, 233, 233, 233, 233, 233, 233, 233, 233, 233, 233, 233, 233, 233, 233, 233, 233, 233, 233, 233, 233, 233>>,
+  <<36, 46, 97, 46, 46, 32, 98, 98, 98, 98, 98, 98, 98, 98, 98, 98, 98, 98, 98, 98, 98, 98, 98, 98, 98, 98, 98, 98, 98, 98, 98, 98, 98, 98, 98, 98, 98, 98, 98, 98, 98, 98, 98, 98, 98, 98, 98, 98, 98, 98, 98, 98, 98, 98, 98, 98, 98, 98, 98, 98, 98, 98, 98, 233, 233, 233, 233, 233, 233, 233, 233, 233, 233>>,
+  <<36, 91, 63, 108, 101, 110, 103, 116, 104, 32, 40, 64, 46, 233, 233, 233, 233, 233, 233, 233, 233, 233, 233, 233, 233, 233, 233, 233, 233, 233, 233, 233, 233, 233, 233, 233, 233, 233, 233, 233, 233, 233, 233, 233, 233, 233, 233, 233, 233, 233, 233, 233, 233, 41, 62, 49, 93>>,
+  <<36, 91, 63, 108, 101, 110, 103, 116, 104, 32, 40, 64, 46, 97, 233, 233, 233, 233, 233, 233, 233, 233, 233, 233, 233, 233, 233, 233, 233, 233, 233, 233, 233, 233, 233, 233, 233, 233, 233, 233, 233, 233, 233, 233, 233, 233, 233, 233, 233, 233, 233, 233, 233, 233, 41, 62, 49, 93>>,
+  <<36, 46, 98, 46, 32, 120, 120, 120, 120, 120, 120, 120, 120, 120, 120, 120, 120, 120, 120, 120, 120, 120, 120, 120, 120, 120, 120, 120, 120, 120, 120, 120, 120, 120, 120, 120, 120, 120, 120, 120, 120, 120, 120, 120, 120, 120, 120, 120, 120, 120, 120, 120, 120, 120, 120, 120, 120, 120, 120, 120, 120, 120, 120, 128512, 128512, 128512, 128512, 128512, 128512, 128512, 128512>>,
+  <<36, 46, 98, 46, 32, 120, 120, 120, 120, 120, 120, 120, 120, 120, 120, 120, 120, 120, 120, 120, 120, 120, 120, 120, 120, 120, 120, 120, 120, 120, 120, 120, 120, 120, 120, 120, 120, 120, 120, 120, 120, 120, 120, 120, 120, 120, 120, 120, 120, 120, 120, 120, 120, 120, 120, 120, 120, 120, 120, 120, 120, 120, 120, 120, 128512, 128512, 128512, 128512, 128512, 128512, 128512, 128512>>,
+  <<36, 46, 98, 46, 32, 120, 120, 120, 120, 120, 120, 120, 120, 120, 120, 120, 120, 120, 120, 120, 120, 120, 120, 120, 120, 120, 120, 120, 120, 120, 120, 120, 120, 120, 120, 120, 120, 120, 120, 120, 120, 120, 120, 120, 120, 120, 120, 120, 120, 120, 120, 120, 120, 120, 120, 120, 120, 120, 120, 120, 120, 120, 120, 120, 120, 128512, 128512, 128512, 128512, 128512, 128512, 128512, 128512>>,
+  <<36, 46, 98, 46, 32, 120, 120, 120, 120, 120, 120, 120, 120, 120, 120, 120, 120, 120, 120, 120, 120, 120, 120, 120, 120, 120, 120, 120, 120, 120, 120, 120, 120, 120, 120, 120, 120, 120, 120, 120, 120, 120, 120, 120, 120, 120, 120, 120, 120, 120, 120, 120, 120, 120, 120, 120, 120, 120, 120, 120, 120, 120, 120, 120, 120, 120, 128512, 128512, 128512, 128512, 128512, 128512, 128512, 128512>>,
+  <<36, 91, 63, 99, 111, 117, 110, 116, 32, 40, 64, 46, 121, 121, 121, 121, 121, 121, 121, 121, 121, 121, 121, 121, 121, 121, 121, 121, 121, 121, 121, 121, 121, 121, 121, 121, 121, 121, 121, 121, 121, 121, 121, 121, 121, 121, 121, 121, 121, 121, 121, 121, 121, 121, 121, 121, 121, 121, 121, 121, 121, 121, 8364, 8364, 8364, 8364, 8364, 8364, 8364, 8364, 8364, 8364, 41, 62, 49, 93>>,
+  <<36, 91, 63, 99, 111, 117, 110, 116, 32, 40, 64, 46, 121, 121, 121, 121, 121, 121, 121, 121, 121, 121, 121, 121, 121, 121, 121, 121, 121, 121, 121, 121, 121, 121, 121, 121, 121, 121, 121, 121, 121, 121, 121, 121, 121, 121, 121, 121, 121, 121, 121, 121, 121, 121, 121, 121, 121, 121, 121, 121, 121, 121, 121, 8364, 8364, 8364, 8364, 8364, 8364, 8364, 8364, 8364, 8364, 41, 62, 49, 93>>,
+  <<36, 91, 63, 99, 111, 117, 110, 116, 32, 40, 64, 46, 121, 121, 121, 121, 121, 121, 121, 121, 121, 121, 121, 121, 121, 121, 121, 121, 121, 121, 121, 121, 121, 121, 121, 121, 121, 121, 121, 121, 121, 121, 121, 121, 121, 121, 121, 121, 121, 121, 121, 121, 121, 121, 121, 121, 121, 121, 121, 121, 121, 121, 121, 121, 8364, 8364, 8364, 8364, 8364, 8364, 8364, 8364, 8364, 8364, 41, 62, 49, 93>>,
+  \* a byte order mark (or another invisible character) is not blank space and not part of a query
+  <<65279, 36, 46, 97>>, <<65279, 32, 36, 46, 97>>, <<36, 46, 97, 65279>>, <<8203, 36>>, <<65534, 36, 46, 97>>, <<36, 65279, 46, 97>>,
   \* surrogate escapes in every hex-digit case: lone ones are invalid, well-formed pairs are valid
   <<36, 91, 39, 92, 117, 100, 99, 48, 48, 39, 93>>, <<36, 91, 39, 92, 117, 68, 99, 48, 48, 39, 93>>, <<36, 91, 39, 92, 117, 100, 98, 102, 102, 39, 93>>, <<36, 91, 39, 92, 117, 100, 66, 102, 102, 92, 117, 100, 67, 48, 48, 39, 93>>, <<36, 91, 63, 64, 46, 97, 61, 61, 39, 92, 117, 100, 101, 97, 100, 39, 93>>, <<36, 91, 39, 92, 117, 100, 56, 51, 100, 92, 117, 100, 101, 48, 48, 39, 93>>, <<36, 91, 39, 92, 117, 100, 98, 102, 102, 92, 117, 100, 102, 102, 102, 39, 93>>, <<36, 91, 39, 92, 117, 100, 102, 102, 102, 92, 117, 100, 56, 48, 48, 39, 93>>, <<36, 91, 39, 92, 117, 100, 97, 48, 48, 120, 39, 93>>, <<36, 91, 39, 92, 117, 68, 56, 51, 100, 39, 93>> >>
 ExtremeDocs == <<"scalar", "empty_arr", "empty_obj", "arr3", "null">>
@@ -106,6 +128,9 @@ ExportCases ==
                                    doc |-> [nest |-> Depths[d], kind |-> IF k % 2 = 0 THEN "arr" ELSE "obj"], verdict |-> "valid"])>>)
   /\ \A k \in 1..Len(ExtremeQ) :
         PrintT(<<"REPLAY", ToJson([id |-> <<"extreme", "", k>>, kind |-> "extreme", q |-> ExtremeQ[k], doc |-> [nest |-> (k % 4), kind |-> "arr"], verdict |-> Verdict(ExtremeQ[k])])>>)
+  /\ \A n \in {16, 24, 32, 48, 64} :      \* two EQUAL deep documents compared with == (cost must not explode with the depth)
+        /\ PrintT(<<"REPLAY", ToJson([id |-> <<"deeppair", "obj", n>>, q |-> <<36, 91, 63, 64, 61, 61, 36, 91, 48, 93, 93>>, doc |-> [nest |-> n, kind |-> "pairobj"], verdict |-> "valid"])>>)
+        /\ PrintT(<<"REPLAY", ToJson([id |-> <<"deeppair", "arr", n>>, q |-> <<36, 91, 63, 64, 60, 61, 36, 91, 49, 93, 93>>, doc |-> [nest |-> n, kind |-> "pairarr"], verdict |-> "valid"])>>)
   /\ \A d \in 1..Len(Depths) :      \* shallow queries over deep documents
         /\ PrintT(<<"REPLAY", ToJson([id |-> <<"deepdoc", "desc", Depths[d]>>, q |-> <<36, 46, 46, 42>>, doc |-> [nest |-> Depths[d], kind |-> "arr"], verdict |-> "valid"])>>)
         /\ Depths[d] > 512 \/ PrintT(<<"REPLAY", ToJson([id |-> <<"deepdoc", "descfilter", Depths[d]>>, q |-> <<36, 46, 46, 91, 63, 64, 46, 46, 97, 93>>, doc |-> [nest |-> Depths[d], kind |-> "obj"], verdict |-> "valid"])>>)
